@@ -83,7 +83,7 @@ func c32ShowQuery(m *serf.VerifMsgQuery) string {
 func c32ShowQResp(m *serf.VerifMsgQueryResponse) string {
 	return fmt.Sprintf("%d %d %s %d %s", uint64(m.LTime), m.ID, hexs(m.From), m.Flags, c32OB(m.Payload))
 }
-func c32ShowUEvents(e *serf.VerifUserEvents) string {
+func c32ShowUEvents(e *serf.VerifMsgUserEvents) string {
 	if e == nil {
 		return "n"
 	}
@@ -156,7 +156,7 @@ func c32ParseQResp(f []string) (*serf.VerifMsgQueryResponse, bool) {
 	return &serf.VerifMsgQueryResponse{LTime: serf.LamportTime(lt), ID: uint32(id), From: string(from), Flags: uint32(fl), Payload: pl}, true
 }
 
-func c32ParseUEvents(s string) (*serf.VerifUserEvents, bool) {
+func c32ParseUEvents(s string) (*serf.VerifMsgUserEvents, bool) {
 	if s == "n" {
 		return nil, true
 	}
@@ -168,10 +168,10 @@ func c32ParseUEvents(s string) (*serf.VerifUserEvents, bool) {
 	if !ok {
 		return nil, false
 	}
-	out := &serf.VerifUserEvents{LTime: serf.LamportTime(lt)}
+	out := &serf.VerifMsgUserEvents{LTime: serf.LamportTime(lt)}
 	items, isNil := c32SplitList(p[1], "|")
 	if !isNil {
-		out.Events = []serf.VerifUserEvent{}
+		out.Events = []serf.VerifMsgUserEventItem{}
 		for _, it := range items {
 			q := strings.SplitN(it, ":", 2)
 			if len(q) != 2 {
@@ -182,7 +182,7 @@ func c32ParseUEvents(s string) (*serf.VerifUserEvents, bool) {
 			if nm == nil || !ok {
 				return nil, false
 			}
-			out.Events = append(out.Events, serf.VerifUserEvent{Name: string(nm), Payload: pl})
+			out.Events = append(out.Events, serf.VerifMsgUserEventItem{Name: string(nm), Payload: pl})
 		}
 	}
 	return out, true
@@ -307,7 +307,7 @@ var c32Kinds = map[string]*c32Kind{
 			}
 		}
 		if items, isNil := c32SplitList(f[4], ";"); !isNil {
-			m.Events = []*serf.VerifUserEvents{}
+			m.Events = []*serf.VerifMsgUserEvents{}
 			for _, it := range items {
 				e, ok := c32ParseUEvents(it)
 				if !ok {
